@@ -58,10 +58,33 @@ pub fn operator_of(o: &Value) -> TextSelectionOperator {
     }
 }
 
+/// the same test through the low-level sets, sorted first (TextSelectionSet::sort() is public and switches the set to
+/// its "sorted" code paths)
+fn relation_cell_sorted<'a>(o: &TextSelectionOperator, sa: Vec<ResultTextSelection<'a>>, sb: Vec<ResultTextSelection<'a>>) -> bool {
+    let resource = sa[0].resource();
+    let low = |v: &Vec<ResultTextSelection<'a>>| {
+        let mut set = TextSelectionSet::new(resource.handle());
+        for t in v.iter() {
+            set.add(t.inner().clone());
+        }
+        set.sort();
+        set
+    };
+    let (la, lb) = (low(&sa), low(&sb));
+    if sb.len() == 1 {
+        la.test(o, sb[0].inner(), resource.as_ref())
+    } else {
+        la.test_set(o, &lb, resource.as_ref())
+    }
+}
+
 /// one relation test: singleton vs singleton through test(), otherwise through the set variants
-fn relation_cell<'a>(o: &TextSelectionOperator, sa: Vec<ResultTextSelection<'a>>, sb: Vec<ResultTextSelection<'a>>) -> bool {
+fn relation_cell<'a>(o: &TextSelectionOperator, sa: Vec<ResultTextSelection<'a>>, sb: Vec<ResultTextSelection<'a>>, sorted: bool) -> bool {
     if sb.is_empty() {
         return false;
+    }
+    if sorted && sa.len() > 1 {
+        return relation_cell_sorted(o, sa, sb);
     }
     if sa.len() == 1 && sb.len() == 1 {
         sa[0].test(o, &sb[0])
@@ -396,7 +419,8 @@ pub fn read(ctx: &Ctx, op: &Op) -> (String, i64, Value) {
                         let sb = tsel_set(&res, b)?;
                         let sa = sa.clone();
                         // a panic in one cell is data for that cell only
-                        let cell = catch_unwind(AssertUnwindSafe(|| relation_cell(&o, sa, sb)));
+                        let sorted = a["sorted"].as_bool().unwrap_or(false);
+                        let cell = catch_unwind(AssertUnwindSafe(|| relation_cell(&o, sa, sb, sorted)));
                         cells.push(match cell {
                             Ok(true) => "T".to_string(),
                             Ok(false) => "F".to_string(),
